@@ -1028,6 +1028,35 @@ func (e *envB) ops(n *explore.Node) []explore.Op {
 			g.Data = "public"
 			return nil
 		})
+	} else if g0.Data == "error" || g0.Data == "public" {
+		// a second report of the other kind on a message that already carries one (a delivery that
+		// made it through after a failure was reported, or the reverse): whatever the queue does
+		// with it, evidence handed in before must still protect its suppliers at prune time
+		reporter := w.Vals[0]
+		if cm, err := m.ConsensusMsg(w.App.AppCodec()); err == nil {
+			if em, ok := cm.(*evmtypes.Message); ok {
+				for _, v := range w.Vals {
+					if v.ValAddr.String() == em.Assignee {
+						reporter = v
+					}
+				}
+			}
+		}
+		first := g0.Data
+		add("Late"+map[string]string{"error": "PublicData", "public": "ErrorData"}[first], false, func(ctx *sdk.Context, g *ghostB) *explore.Fail {
+			var msg sdk.Msg
+			if first == "error" {
+				msg = &ctypes.MsgSetPublicAccessData{MessageID: g.MsgID, QueueTypeName: e.queue, Data: []byte{0xab, 0xcd}, ValsetID: 1, Metadata: world.Meta(reporter.Actor)}
+			} else {
+				msg = &ctypes.MsgSetErrorData{MessageID: g.MsgID, QueueTypeName: e.queue, Data: []byte("boom"), Metadata: world.Meta(reporter.Actor)}
+			}
+			if _, f := deliver(ctx, reporter, msg); f != nil {
+				return f
+			}
+			counters["B_second_report_after_"+first]++
+			g.Data = first + "+late"
+			return nil
+		})
 	}
 	for i, v := range w.Vals {
 		for _, proof := range []string{"A", "B"} {
@@ -1098,8 +1127,13 @@ func (e *envB) ops(n *explore.Node) []explore.Op {
 		var sup []string
 		for i, v := range w.Vals {
 			total.Add(total, big.NewInt(e.stakes[i]))
-			if (g.Supplied[i] != "") != rec[v.ValAddr.String()] {
-				return explore.Failf("harness-suppliers", "ghost and queue disagree about v%d's evidence", i)
+			if g.Supplied[i] == "" && rec[v.ValAddr.String()] {
+				return explore.Failf("harness-suppliers", "the queue holds evidence of v%d that the ghost never handed in", i)
+			}
+			if g.Supplied[i] != "" && !rec[v.ValAddr.String()] {
+				// the queue dropped accepted evidence: not a verdict by itself, the prune below
+				// is judged against who supplied evidence (the ghost), not against what is left of it
+				counters["B_prunes_where_the_queue_lost_accepted_evidence"]++
 			}
 			if g.Supplied[i] != "" {
 				votes.Add(votes, big.NewInt(e.stakes[i]))
